@@ -66,7 +66,7 @@ def all_structs():
 
 def jobs(tier, seed):
     st = all_structs()
-    idx = range(len(st)) if tier == 'thorough' else sorted(set([0, 1, 2, 5] + list(range(3, len(st), 5))))   # 5 = the single clique (A,B,C): a model without any message
+    idx = range(len(st)) if tier == 'thorough' else sorted(set([0, 1, 2, 6] + list(range(3, len(st), 5))))   # 6 = the single clique (A,B,C): a model without any message
     return [{'si': si, 'seed': seed} for si in idx] + [{'witness': 'F13', 'seed': seed}] + [{'si': 1000 + i, 'seed': seed} for i in range(len(STRUCTS4))] + [{'si': 2000 + i, 'seed': seed} for i in range(len(STRUCTS5))]
 
 
@@ -88,9 +88,15 @@ def coherence_failures(model, attrs, sizes, maxlen=2, tol_r=1e-7, tol_a=1e-9):
     slack = min(1e-6, 32 * 2.2e-16 * Smag)
     tol_r, tol_a = tol_r + slack, tol_a + slack
     if hasattr(model, 'marginals'):
-        bp = model.belief_propagation(model.potentials)
+        from mbi import Factor, CliqueVector
         for cl in model.cliques:
-            a = np.asarray(model.marginals[cl].values, dtype=float)
+            if np.shares_memory(np.asarray(model.marginals[cl].values), np.asarray(pots[cl].values)):
+                fails.append(('aliased', 'stored marginal and stored parameters of %r share one array' % (cl,)))
+        # the check works on copies: it must never be the harness that makes the model consistent (or inconsistent)
+        marg_snap = {cl: np.array(model.marginals[cl].values, dtype=float, copy=True) for cl in model.cliques}
+        bp = model.belief_propagation(CliqueVector({cl: Factor(pots[cl].domain, np.array(pots[cl].values, copy=True)) for cl in model.cliques}))
+        for cl in model.cliques:
+            a = marg_snap[cl]
             b = np.asarray(bp[cl].values, dtype=float)
             if tuple(model.marginals[cl].domain.attrs) != tuple(cl) or not O.close(a, b, tol_r, tol_a * T):
                 fails.append(('marginals-vs-parameters', 'stored marginal of %r differs from BP(stored parameters) by %.3g (total %g)' % (cl, O.maxdiff(a, b), T)))
